@@ -59,6 +59,9 @@ class ScopeGen:
                     lines.append("%s%s = { %s%s = %s; %s = %s; r = %s; };" % (ind, hname, ('%s= 0; ' % quoted) if quoted else "", n, self.lit(), other, self.lit(), other))
                     if not in_set:
                         self.helpers.append((hname, other))
+                elif rng.random() < 0.2:
+                    # the source passes the name on from *its* surroundings (`s = { inherit n; }`)
+                    lines.append("%s%s = { %sinherit %s; };" % (ind, hname, ('%s= 0; ' % quoted) if quoted else "", n))
                 else:
                     lines.append("%s%s = { %s%s = %s; };" % (ind, hname, ('%s= 0; ' % quoted) if quoted else "", n, self.lit()))
             else:
